@@ -180,36 +180,36 @@ Check (C20_only_requested_with_want_filter :
 Check (C20_no_duplicate_delivery_with_want_filter :
   forall (D : Type) (digest : N -> D -> option (list N)) ops want c,
     (cnt D c (client_run D digest want ops) <= memn c want + req_count D c ops)%nat).
-Check (C20_request_partition :
-  forall mm cids,
-    concat (send_request_msgs mm cids) =
-    filter (fits (cid * want_type) (fun _ => 0) sw_elen req_mlen 0 mm) cids).
-Check (C20_request_bounds :
-  forall mm cids, Forall (fun b => b <> [] -> request_len b <= mm) (send_request_msgs mm cids)).
+Check (C20_request_single_message :
+  forall mb mm cids,
+    action_msgs mb mm (ARequest cids) = [ORequest cids] /\ omsg_len (ORequest cids) = request_len cids).
 Check (C20_request_empty_is_one_message :
-  forall mm, send_request_msgs mm [] = [[]] /\ request_len [] = 2).
-Check (C20_default_requests_all_sent :
+  forall mb mm, action_msgs mb mm (ARequest []) = [ORequest []] /\ request_len [] = 2).
+Check (C20_default_request_fits :
   forall cids, Forall (fun cw => (length (c_digest (fst cw)) <= 64)%nat) cids ->
-    concat (send_request_msgs Consts.BITSWAP_MAX_MESSAGE_SIZE cids) = cids).
-Check (C20_default_requests_nonempty :
-  forall cids, Forall (fun cw => (length (c_digest (fst cw)) <= 64)%nat) cids -> cids <> [] ->
-    Forall (fun b => b <> [] /\ request_len b <= Consts.BITSWAP_MAX_MESSAGE_SIZE)
-           (send_request_msgs Consts.BITSWAP_MAX_MESSAGE_SIZE cids)).
-Check (C20_split_request_same_wants :
-  forall mm cids, Forall (fun cw => cid_wf (fst cw)) cids ->
-    flat_map (fun b => inbound_wants (request_entries b)) (send_request_msgs mm cids) =
-    filter (fits (cid * want_type) (fun _ => 0) sw_elen req_mlen 0 mm) cids).
+    N.of_nat (length cids) <= 32000 -> request_len cids <= Consts.BITSWAP_MAX_MESSAGE_SIZE).
+Check (C20_request_written_healthy :
+  forall mb mm cids, request_len cids <= mm ->
+    write_msgs mm None (action_msgs mb mm (ARequest cids)) = ([ORequest cids], 0, None, true)).
 Check (C20_unsplit_request_insufficient :
   forall mm, 53 <= mm ->
     exists cids : list (cid * want_type),
-      Forall (fun cw => fits (cid * want_type) (fun _ => 0) sw_elen req_mlen 0 mm cw = true) cids /\
-      mm < request_len cids).
+      Forall (fun cw => req_mlen (sw_elen cw) <= mm) cids /\ mm < request_len cids).
+Check (C20_oversized_request_refused :
+  forall mb mm cids c, mm < request_len cids ->
+    write_msgs mm c (action_msgs mb mm (ARequest cids)) = ([], 0, c, false)).
+Check (C20_oversized_request_drops_queue :
+  forall (D : Type) (digest : N -> D -> option (list N)) mb mm s c2 cids acts, mm < request_len cids ->
+    ps_pend s = [] -> ps_opening s = false -> ps_conn s = 1 ->
+    run_peer D digest mb mm s (PSend (ARequest cids) :: map PSend acts ++ [POutOpen c2]) =
+    (set_out s None, [], [])).
+Check (C20_flush_stops_at_oversized_request :
+  forall mb mm c pre cids rest, Forall (action_ok mm) pre -> mm < request_len cids ->
+    write_actions mb mm None (pre ++ ARequest cids :: rest) =
+    (flat_map (action_msgs mb mm) pre, 0, None, false) /\
+    (pre = [] -> write_actions mb mm c (ARequest cids :: rest) = ([], 0, c, false))).
 Check (C20_action_within_codec_limit :
-  forall mb mm a, 2 <= mm -> Forall (fun m => omsg_len m <= mm) (action_msgs mb mm a)).
-Check (C20_request_lossless :
-  forall mb mm cids,
-    flat_map omsg_wants (action_msgs mb mm (ARequest cids)) =
-    filter (fits (cid * want_type) (fun _ => 0) sw_elen req_mlen 0 mm) cids).
+  forall mb mm a, action_ok mm a -> Forall (fun m => omsg_len m <= mm) (action_msgs mb mm a)).
 Check (C20_request_bytes_length :
   forall cids, request_len cids < 2 ^ 64 -> Protobuf.blen (request_bytes cids) = request_len cids).
 Check (C20_presences_bytes_length :
@@ -226,9 +226,10 @@ Check (C20_wire_blocks_bounded :
 Check (C20_wire_presences_bounded :
   forall mm l, mm < 2 ^ 64 ->
     Forall (fun batch => batch <> [] /\ Protobuf.blen (presences_bytes batch) <= mm) (send_response_presences mm l)).
-Check (C20_wire_requests_bounded :
-  forall mm cids, 2 <= mm -> mm < 2 ^ 64 ->
-    Forall (fun batch => Protobuf.blen (request_bytes batch) <= mm) (send_request_msgs mm cids)).
+Check (C20_wire_request_written_bounded :
+  forall mm c cids done part c' ok, mm < 2 ^ 64 ->
+    write_msgs mm c [ORequest cids] = (done, part, c', ok) ->
+    done = [] \/ (done = [ORequest cids] /\ Protobuf.blen (request_bytes cids) <= mm)).
 Check (C20_request_bytes_parse :
   forall cids, request_len cids < 2 ^ 64 ->
     Protobuf.pb_parse (request_bytes cids) = Protobuf.Ok (request_fields cids)).
@@ -269,7 +270,7 @@ Check (C20_send_to_gone_peer_dropped :
     ps_inv s -> ps_conn s <> 1 -> ps_pend s = [] -> (ps_mgr s = 0 \/ ps_mgr s = 2) -> ps_out s = None ->
     peer_step D digest mb mm s (PSend a) = (s, ([], ([], 0)))).
 Check (C20_send_to_dialable_peer_parked :
-  forall (D : Type) (digest : N -> D -> option (list N)) mb mm s acts, 2 <= mm ->
+  forall (D : Type) (digest : N -> D -> option (list N)) mb mm s acts, Forall (action_ok mm) acts ->
     ps_conn s = 0 -> ps_pend s = [] -> ps_out s = None -> ps_dial s = false -> ps_opening s = false ->
     (ps_mgr s = 1 \/ ps_mgr s = 3) -> acts <> [] ->
     let '(s1, _, done) := run_peer D digest mb mm s (map PSend acts ++ [PConnect; POutOpen None]) in
@@ -278,7 +279,7 @@ Check (C20_dial_failure_drops_parked :
   forall (D : Type) (digest : N -> D -> option (list N)) mb mm s, ps_dial s = true ->
     peer_step D digest mb mm s PDialFail = (set_pend (set_dial s false) [], ([], ([], 0)))).
 Check (C20_failed_send_retried_whole :
-  forall (D : Type) (digest : N -> D -> option (list N)) mb mm s c a done part c', 2 <= mm ->
+  forall (D : Type) (digest : N -> D -> option (list N)) mb mm s c a done part c', action_ok mm a ->
     ps_out s = Some c -> ps_pend s = [] -> ps_conn s = 1 ->
     write_msgs mm c (action_msgs mb mm a) = (done, part, c', false) ->
     let '(s1, _, written) := run_peer D digest mb mm s [PSend a; POutOpen None] in
